@@ -163,6 +163,9 @@ func c19genText(rt *rapid.T, label string, id int) []byte {
 		switch rapid.IntRange(0, 5).Draw(rt, fmt.Sprintf("%s_%d", label, len(b))) {
 		case 0:
 			b = append(b, '\n')
+		case 1:
+			// text as period clients send it: Mac Roman letters, which are not valid UTF-8
+			b = append(b, 'Z', 'o', 0x91, ' ', 0x8e, 0xff, ' ')
 		default:
 			b = append(b, []byte("lorem ")...)
 		}
@@ -174,8 +177,8 @@ func c19prop(ev *evid.Rec) func(rt *rapid.T) {
 	return func(rt *rapid.T) {
 		boardSize := rapid.SampledFrom([]int{0, 100, 513, 5000, 33000, 60000}).Draw(rt, "board")
 		agreeSize := rapid.SampledFrom([]int{0, 100, 513, 5000, 33000, 60000}).Draw(rt, "agreement")
-		initial := bytes.Repeat([]byte("old board line\r"), boardSize/15+1)[:boardSize]
-		agreement := bytes.Repeat([]byte("agreement text.\r"), agreeSize/16+1)[:agreeSize]
+		initial := bytes.Repeat([]byte("old board l\x8ene\r"), boardSize/15+1)[:boardSize] // (0x8e: Mac Roman e-acute)
+		agreement := bytes.Repeat([]byte("agreement t\x8ext.\r"), agreeSize/16+1)[:agreeSize]
 		nclients := rapid.IntRange(2, 7).Draw(rt, "nclients")
 		nrounds := rapid.IntRange(1, 4).Draw(rt, "rounds")
 		type round struct{ readers, posters []int }
